@@ -362,3 +362,89 @@ package encoder
 //@   loop 3: invariant forall k :: 0 <= k && k < len(buf) - old(len(buf)) ==> buf[old(len(buf))+k] >= 32
 //@   loop 3: invariant forall k :: 0 <= k && k < len(s) ==> s[k] == old(s[k])
 //@   loop 3: decreases len(s) - j
+
+//@ func appendHTMLString(buf, s) (res)
+//@   props C17 C03 C06
+//@   requires apartS(buf, s)
+//@   swar needEscapeHTML
+//@   nomerge
+//@   ensures len(res) >= len(buf) + 2 && res[len(buf)] == '"' && res[len(res)-1] == '"'
+//@   ensures forall k :: 0 <= k && k < len(buf) ==> res[k] == old(buf[k])
+// no raw control character and no raw < > & leaves the emitter
+//@   ensures forall k :: 0 <= k && k < len(res) - len(buf) ==> res[len(buf)+k] >= 32 && res[len(buf)+k] != '<' && res[len(buf)+k] != '>' && res[len(buf)+k] != '&'
+//@   assigns M
+//@   loop 1: invariant -1 <= rangeindex && rangeindex < len(chunks) && len(chunks) == len(s) / 8 && ptrOf(chunks) == ptrOf(s)
+//@   loop 1: invariant forall k :: 0 <= k && k < 8 * (rangeindex + 1) ==> !unsafeHTML(s[k])
+//@   loop 2: invariant 8 * len(chunks) <= i && i <= len(s)
+//@   loop 2: invariant forall k :: 0 <= k && k < i ==> !unsafeHTML(s[k])
+//@   loop 3: invariant 0 <= i && i <= j && j <= len(s) && len(buf) > old(len(buf)) && apartS(buf, s)
+//@   loop 3: invariant forall k :: 0 <= k && k < j - i ==> !unsafeHTML(s[i+k])
+//@   loop 3: invariant forall k :: 0 <= k && k < old(len(buf)) ==> buf[k] == old(buf[k])
+//@   loop 3: invariant buf[old(len(buf))] == '"'
+//@   loop 3: invariant forall k :: 0 <= k && k < len(buf) - old(len(buf)) ==> buf[old(len(buf))+k] >= 32 && buf[old(len(buf))+k] != '<' && buf[old(len(buf))+k] != '>' && buf[old(len(buf))+k] != '&'
+//@   loop 3: invariant forall k :: 0 <= k && k < len(s) ==> s[k] == old(s[k])
+//@   loop 3: decreases len(s) - j
+
+// UTF-8 first-byte table: ASCII, invalid, or (accept-range index << 4 | sequence length)
+//@ tablelemma[C17,C03,C06] first(j, v) := (j < 128 ==> v == 240) && (j >= 128 && j < 194 ==> v == 241) && (j >= 245 ==> v == 241) && (j >= 194 && j < 224 ==> v == 2) && (j == 224 ==> v == 19) && (j >= 225 && j < 237 ==> v == 3) && (j == 237 ==> v == 35) && (j >= 238 && j < 240 ==> v == 3) && (j == 240 ==> v == 52) && (j >= 241 && j < 244 ==> v == 4) && (j == 244 ==> v == 68)
+//@ spec cont(c) := c >= 128 && c <= 191
+
+// states: 0 valid, 1 error, 2 U+2028, 3 U+2029
+//@ func decodeRuneInString(s) (state, size)
+//@   props C17 C03 C06
+//@   requires len(s) >= 1
+//@   ensures 1 <= size && size <= len(s) && size <= 4 && 0 <= state && state <= 3
+//@   ensures state != 0 && state != 2 && state != 3 ==> size == 1
+//@   ensures state == 2 <==> (len(s) >= 3 && s[0] == 226 && s[1] == 128 && s[2] == 168)
+//@   ensures state == 3 <==> (len(s) >= 3 && s[0] == 226 && s[1] == 128 && s[2] == 169)
+//@   ensures (state == 2 || state == 3) ==> size == 3
+// a sequence reported valid is well-formed UTF-8 (Unicode table 3-7)
+//@   ensures state == 0 && size == 1 ==> s[0] < 128
+//@   ensures state == 0 && size == 2 ==> s[0] >= 194 && s[0] <= 223 && cont(s[1])
+//@   ensures state == 0 && size == 3 ==> s[0] >= 224 && s[0] <= 239 && cont(s[1]) && cont(s[2]) && (s[0] == 224 ==> s[1] >= 160) && (s[0] == 237 ==> s[1] <= 159)
+//@   ensures state == 0 && size == 4 ==> s[0] >= 240 && s[0] <= 244 && cont(s[1]) && cont(s[2]) && cont(s[3]) && (s[0] == 240 ==> s[1] >= 144) && (s[0] == 244 ==> s[1] <= 143)
+//@   assigns nothing
+
+//@ func appendNormalizedString(buf, s) (res)
+//@   props C17 C03 C06
+//@   requires apartS(buf, s)
+//@   swar needEscapeNormalizeUTF8
+//@   nomerge
+//@   ensures len(res) >= len(buf) + 2 && res[len(buf)] == '"' && res[len(res)-1] == '"'
+//@   ensures forall k :: 0 <= k && k < len(buf) ==> res[k] == old(buf[k])
+//@   ensures forall k :: 0 <= k && k < len(res) - len(buf) ==> res[len(buf)+k] >= 32
+//@   assigns M
+//@   loop 1: invariant -1 <= rangeindex && rangeindex < len(chunks) && len(chunks) == len(s) / 8 && ptrOf(chunks) == ptrOf(s)
+//@   loop 1: invariant forall k :: 0 <= k && k < 8 * (rangeindex + 1) ==> !unsafeByte(s[k]) && s[k] < 128
+//@   loop 2: invariant 8 * len(chunks) <= i && i <= len(s)
+//@   loop 2: invariant forall k :: 0 <= k && k < i ==> !unsafeByte(s[k]) && s[k] < 128
+//@   loop 3: invariant 0 <= i && i <= j && j <= len(s) && len(buf) > old(len(buf)) && apartS(buf, s)
+// raw run: nothing that must be escaped, and no position of the run starts U+2028 / U+2029
+//@   loop 3: invariant forall k :: 0 <= k && k < j - i ==> !unsafeByte(s[i+k]) && !lineSepAt(s, i+k)
+//@   loop 3: invariant forall k :: 0 <= k && k < old(len(buf)) ==> buf[k] == old(buf[k])
+//@   loop 3: invariant buf[old(len(buf))] == '"'
+//@   loop 3: invariant forall k :: 0 <= k && k < len(buf) - old(len(buf)) ==> buf[old(len(buf))+k] >= 32
+//@   loop 3: invariant forall k :: 0 <= k && k < len(s) ==> s[k] == old(s[k])
+//@   loop 3: decreases len(s) - j
+
+//@ func appendNormalizedHTMLString(buf, s) (res)
+//@   props C17 C03 C06
+//@   requires apartS(buf, s)
+//@   swar needEscapeHTMLNormalizeUTF8
+//@   nomerge
+//@   ensures len(res) >= len(buf) + 2 && res[len(buf)] == '"' && res[len(res)-1] == '"'
+//@   ensures forall k :: 0 <= k && k < len(buf) ==> res[k] == old(buf[k])
+//@   ensures forall k :: 0 <= k && k < len(res) - len(buf) ==> res[len(buf)+k] >= 32 && res[len(buf)+k] != '<' && res[len(buf)+k] != '>' && res[len(buf)+k] != '&'
+//@   assigns M
+//@   loop 1: invariant -1 <= rangeindex && rangeindex < len(chunks) && len(chunks) == len(s) / 8 && ptrOf(chunks) == ptrOf(s)
+//@   loop 1: invariant forall k :: 0 <= k && k < 8 * (rangeindex + 1) ==> !unsafeHTML(s[k]) && s[k] < 128
+//@   loop 2: invariant 8 * len(chunks) <= i && i <= len(s)
+//@   loop 2: invariant forall k :: 0 <= k && k < i ==> !unsafeHTML(s[k]) && s[k] < 128
+//@   loop 3: invariant 0 <= i && i <= j && j <= len(s) && len(buf) > old(len(buf)) && apartS(buf, s)
+// raw run: nothing that must be escaped, and no position of the run starts U+2028 / U+2029
+//@   loop 3: invariant forall k :: 0 <= k && k < j - i ==> !unsafeHTML(s[i+k]) && !lineSepAt(s, i+k)
+//@   loop 3: invariant forall k :: 0 <= k && k < old(len(buf)) ==> buf[k] == old(buf[k])
+//@   loop 3: invariant buf[old(len(buf))] == '"'
+//@   loop 3: invariant forall k :: 0 <= k && k < len(buf) - old(len(buf)) ==> buf[old(len(buf))+k] >= 32 && buf[old(len(buf))+k] != '<' && buf[old(len(buf))+k] != '>' && buf[old(len(buf))+k] != '&'
+//@   loop 3: invariant forall k :: 0 <= k && k < len(s) ==> s[k] == old(s[k])
+//@   loop 3: decreases len(s) - j
